@@ -11,7 +11,7 @@ and numpy arrays; coordinate objects).
               pristine interpreter).  The snapshot of all other module-level data is observed: if the set of reachable
               library states closes (one state on a pure tree) the verdict extends to histories of any length.
   sched     : schedule exploration.  Two real threads, each executing one call of the shared-object seam, all
-              interleavings with at most 1 preemption (2 on the structural pairs; 3 threads in thorough) under a
+              interleavings with at most 1 preemption (2 on the structural pairs; 3 threads and opcode granularity in thorough) under a
               deterministic scheduler; every execution is checked like a sequential one against the reference results.
 """
 import datetime
@@ -216,10 +216,15 @@ def references():
 
 def prepare(tier, seed):
     references()
-    bad = [n for n, r in _REF.items() if r[0] != 'ok']
-    if bad:
-        # a call of the alphabet that raises in a pristine interpreter is reported by the seq sub-check
-        pass
+    if tier == 'thorough':
+        # opcode granularity must really be finer than line granularity on this interpreter (it silently was not on
+        # CPython 3.12 until the instrumentation was warmed up); otherwise the thorough tier would claim more than it does
+        files = traced_files(())
+        pl = run_schedule([['neg_t'], ['k_val95']], files, [], False)
+        po = run_schedule([['neg_t'], ['k_val95']], files, [], True)
+        if len(po['points']) < 2 * len(pl['points']):
+            raise HarnessError('opcode-granularity tracing is not effective: %d points vs %d line points'
+                               % (len(po['points']), len(pl['points'])))
 
 
 def run_history(hist):
@@ -364,9 +369,10 @@ def gen_sched(tier, seed):
     if tier == 'thorough':
         for a in SEAM[:8]:
             yield {'threads': [[a], ['add_date'], ['conform14_itrf08_vcv']], 'bound': 1}
+        # opcode granularity (the real atomicity unit of the interpreter lock) on the structural pairs: every single preemption
         for (a, b) in BOUND2_PAIRS:
             for k in range(nparts):
-                yield {'threads': [[a], [b]], 'bound': 2, 'opcode': True, 'part': [k, nparts]}
+                yield {'threads': [[a], [b]], 'bound': 1, 'opcode': True, 'part': [k, nparts]}
 
 
 def run_schedule(threads, files, prefix, opcode):
